@@ -17,11 +17,14 @@ type famDef struct {
 }
 
 var families = map[string]famDef{
-	"map":     {"C01", famMap, mapRunner},
-	"canon":   {"C04", famCanon, exactRunner},
-	"persist": {"C05", famPersist, exactRunner},
-	"diff":    {"C06", famDiff, exactRunner},
-	"cursor":  {"C10", famCursor, exactRunner},
+	"map":       {"C01", famMap, mapRunner},
+	"canon":     {"C04", famCanon, exactRunner},
+	"persist":   {"C05", famPersist, exactRunner},
+	"diff":      {"C06", famDiff, exactRunner},
+	"cursor":    {"C10", famCursor, exactRunner},
+	"reads":     {"C16", famReads, exactRunner},
+	"difflinks": {"C07", famDiffLinks, exactRunner},
+	"diffcost":  {"C15", famDiffCost, exactRunner},
 }
 
 func main() {
